@@ -6,6 +6,7 @@ package main
 
 import (
 	"fmt"
+	"go/types"
 	"regexp"
 	"strings"
 
@@ -103,7 +104,7 @@ func messageWriters(w *World, r *Recorder, rule string) {
 			continue
 		}
 		for _, site := range ef.Sites {
-			if site.Field != "Evidence.message" {
+			if site.Field != "Evidence."+w.envelopeField() {
 				continue
 			}
 			n++
@@ -120,6 +121,25 @@ func messageWriters(w *World, r *Recorder, rule string) {
 	if n < 1 {
 		r.Undecide(rule, "writer-of-Evidence.message#count", "-", "no write site of Evidence.message found")
 	}
+}
+
+// envelopeField: the field of Evidence that holds the COSE envelope, by
+// role: its type is a pointer to go-cose's Sign1Message.
+func (w *World) envelopeField() string {
+	if w.envField != "" {
+		return w.envField
+	}
+	w.envField = "message"
+	if t := w.NamedType(w.Root, "Evidence"); t != nil {
+		if st, ok := t.Underlying().(*types.Struct); ok {
+			for i := 0; i < st.NumFields(); i++ {
+				if strings.HasSuffix(st.Field(i).Type().String(), "go-cose.Sign1Message") {
+					w.envField = st.Field(i).Name()
+				}
+			}
+		}
+	}
+	return w.envField
 }
 
 func ssaExported(fn *ssa.Function) bool {
@@ -159,7 +179,7 @@ func checkC02(w *World, r *Recorder) propInfo {
 	if fn != nil {
 		recv := fn.Params[0].Name()
 		pk := fn.Params[1].Name()
-		msg := recv + ".message"
+		msg := recv + "." + w.envelopeField()
 		ei := errIndex(fn)
 		okPaths := 0
 		for _, p := range s.Paths {
@@ -353,7 +373,7 @@ func checkC03(w *World, r *Recorder) propInfo {
 			msg := ""
 			msgIdx := -1
 			for i, ev := range p.St.events {
-				if ev.Kind == "store" && ev.Loc == "P:"+recv+"|.message" {
+				if ev.Kind == "store" && ev.Loc == "P:"+recv+"|."+w.envelopeField() {
 					msg, msgIdx = ev.Val.name(), i
 				}
 			}
@@ -455,7 +475,7 @@ func checkC03(w *World, r *Recorder) propInfo {
 			if _, nl := errOf(p, errIndex(fn)); nl == 1 {
 				continue
 			}
-			st, _, claimsStore := envelopeState(p, recv)
+			st, _, claimsStore := envelopeState(w, p, recv)
 			c19Claims(w, r, fn, p, "UnmarshalCOSE#"+c08PathKey(p), st, claimsStore, false)
 		}
 	}
@@ -479,7 +499,7 @@ func checkC03(w *World, r *Recorder) propInfo {
 			n++
 			pkey := "Verify#fails:" + c08PathKey(p)
 			ok := false
-			if b, has := p.St.atoms["nil("+recv+".message)"]; has && b {
+			if b, has := p.St.atoms["nil("+recv+"."+w.envelopeField()+")"]; has && b {
 				ok = true
 			}
 			for _, callee := range []string{cAlg, cNewVerifier, cVerify} {
@@ -493,7 +513,15 @@ func checkC03(w *World, r *Recorder) propInfo {
 					}
 				}
 			}
-			r.Check(ok, "C03-S6", pkey, w.InstrPos(p.Ret), "failure follows a go-cose error (or the missing-envelope guard)",
+			// an envelope whose protected header is empty carries no algorithm:
+			// go-cose's Algorithm() fails on it (model table) and no token this
+			// library signs looks like that (doSign sets the algorithm there)
+			for t, set := range p.St.terms {
+				if strings.HasPrefix(t, "len("+recv+"."+w.envelopeField()+".Headers.Protected") && set.equal(iset{{0, 0}}) {
+					ok = true
+				}
+			}
+			r.Check(ok, "C03-S6", pkey, w.InstrPos(p.Ret), "failure follows a go-cose error (or the missing-envelope / empty-protected-header guard)",
 				"Verify returns an error although none of go-cose's calls has failed on this path: a correctly signed token can be refused (verification with the matching key must succeed)")
 		}
 		if n == 0 {
@@ -522,13 +550,13 @@ func checkC03(w *World, r *Recorder) propInfo {
 
 // envelopeState replays a path's events and returns the abstract state of
 // the Evidence's envelope at the return.
-func envelopeState(p Path, recv string) (state, msg string, claimsStore *Event) {
+func envelopeState(w *World, p Path, recv string) (state, msg string, claimsStore *Event) {
 	state = "stale"
 	headersTouched := false
 	for _, ev := range p.St.events {
 		ev := ev
 		switch {
-		case ev.Kind == "store" && ev.Loc == "P:"+recv+"|.message":
+		case ev.Kind == "store" && ev.Loc == "P:"+recv+"|."+w.envelopeField():
 			switch {
 			case ev.Val.Kind == KNil:
 				state, msg = "nil", ""
@@ -609,7 +637,7 @@ func checkC19(w *World, r *Recorder) propInfo {
 				continue
 			}
 			_, nl := errOf(p, ei)
-			st, _, claimsStore := envelopeState(p, recv)
+			st, _, claimsStore := envelopeState(w, p, recv)
 			pkey := name + "#" + c08PathKey(p)
 			failing := nl == 1
 			if failing {
